@@ -98,6 +98,16 @@ def loop_targets_with_origin(it: Interp, site: ast.AST, suffix: str) -> set[str]
     return out or set()
 
 
+def same(actual: str, expected: str) -> bool:
+    """two expression texts are the same up to the condition normal form (operand order of ==, spacing)"""
+    from ..nform import canon_expr
+
+    try:
+        return canon_expr(actual) == canon_expr(expected)
+    except SyntaxError:
+        return actual.replace(" ", "") == expected.replace(" ", "")
+
+
 def fmt(node: Optional[ast.AST]) -> str:
     return short(unparse(node)) if node is not None else "<none>"
 
